@@ -61,6 +61,10 @@ class SchedLock(object):
         while self.owner is not None:
             if self.owner is t:
                 sc.fail('thread %s acquires a lock it already holds (self-deadlock)' % t.name)
+            if not blocking:
+                return False
+            if timeout is not None and timeout >= 0 and sc.ch.choose('lock-timeout', 2, (0, 1)) == 1:
+                return False          # acquire(timeout=...) may give up while the lock is still held: a budgeted choice
             t.blocked_on = self
             sc.switch_away(t)
         t.blocked_on = None
